@@ -5,6 +5,7 @@ mod dir_engine;
 mod file_engine;
 mod gen_stream;
 mod negot;
+mod once_engine;
 mod stream_engine;
 mod rng;
 #[cfg(feature = "hooks")]
@@ -168,6 +169,15 @@ fn main() {
                     gen_stream::gen_random(&mut rng, if thorough { 20000 } else { 2500 }, false, false, &mut emit_stream);
                     gen_stream::gen_random(&mut rng, if thorough { 20000 } else { 2500 }, true, false, &mut emit_stream);
                     gen_stream::gen_random(&mut rng, if thorough { 5000 } else { 500 }, true, true, &mut emit_stream);
+                    drop(emit_stream);
+                    // Body::empty() and the Body::from conversions
+                    once_engine::gen(&mut |c: once_engine::OnceCase| {
+                        if let Some(idx) = watch::gate(&c.class) {
+                            let id = format!("{}-O{}", prop, idx);
+                            writeln!(cases, "once {} {}", id, once_engine::run(&c).to_string()).unwrap();
+                            writeln!(meta, "{}\t{}\t", id, c.class).unwrap();
+                        }
+                    });
                 }
                 "C13" => {
                     gen_serve::gen_mixed(&mut rng, n_mixed * 3, "c13", &mut emit_serve);
@@ -277,6 +287,14 @@ fn main() {
                     gen_serve::gen_c07(&mut rng, true, &mut emit_serve);
                     gen_serve::gen_mixed(&mut rng, n_mixed, "c20", &mut emit_serve);
                     gen_serve::gen_c06(&mut rng.fork(), false, &mut emit_serve);
+                    drop(emit_serve);
+                    once_engine::gen(&mut |c: once_engine::OnceCase| {
+                        if let Some(idx) = watch::gate(&c.class) {
+                            let id = format!("{}-O{}", prop, idx);
+                            writeln!(cases, "once {} {}", id, once_engine::run(&c).to_string()).unwrap();
+                            writeln!(meta, "{}\t{}\t", id, c.class).unwrap();
+                        }
+                    });
                 }
                 _ => {
                     eprintln!("unknown property {}", prop);
@@ -303,6 +321,15 @@ fn main() {
                     let (c, choices) = sched_engine::case_of_input(&input).expect("decodable sched input");
                     let r = sched_engine::run_one(&c, &choices);
                     writeln!(out, "{}", sched_engine::case_line(id, &c, &r)).unwrap();
+                }
+                if engine == "once" {
+                    let v = val::Val::parse(rest).expect("case value");
+                    let input = match &v {
+                        val::Val::L(l) if l.len() == 2 => l[0].clone(),
+                        _ => v.clone(),
+                    };
+                    let c = once_engine::case_of_input(&input).expect("decodable once input");
+                    writeln!(out, "once {} {}", id, once_engine::run(&c).to_string()).unwrap();
                 }
                 if engine == "stream" {
                     let v = val::Val::parse(rest).expect("case value");
